@@ -16,7 +16,7 @@ using namespace gt;
 static const char *UNIVERSE[] = {"a", "b", "ab", "ba", "abc", "acb", "aab", "c/d", "a/", "ab/", "c/",
                                  // thorough extension
                                  "abcd", "bc", "bac", "abb", "b/", "abdc", "abc/", "ca", "cab", "d"};
-static const char EDIT[] = "abc/0x";
+static const char EDIT[] = "abc/0x+- ";      // + - and blank: what a lenient number parser would swallow in front of an index
 
 static std::shared_ptr<Node> small_child()
 {
@@ -83,7 +83,7 @@ static std::string classify(Node &root, const std::string &addr)
 }
 
 static uint64_t g_tables = 0;
-static uint64_t g_out[5][4][2];
+static uint64_t g_out[6][4][2];
 static int g_cur_linear = 0;
 
 static void run_message(Node &root, const std::string &tid, const std::string &addr, const char *types)
@@ -102,15 +102,17 @@ static void run_message(Node &root, const std::string &tid, const std::string &a
     size_t must_leaf = 0; for(auto &e : exp) if(e.kind == LEAF && !e.optional) ++must_leaf;
     vp::eval();
     Recorder &rec = R();
-    static const char *MODE[5] = {"no-location-buffer", "location-buffer", "location-buffer,base_dispatch=false",
-                                  "location-buffer,base_dispatch=false,prefix-followed-by-garbage", "location-buffer,message-at-unaligned-address"};
+    static const char *MODE[6] = {"no-location-buffer", "location-buffer", "location-buffer,base_dispatch=false",
+                                  "location-buffer,base_dispatch=false,prefix-followed-by-garbage", "location-buffer,message-at-unaligned-address",
+                                  "location-buffer-of-exactly-the-address-length"};
     static char ualigned[sizeof g_msgbuf + 8];
-    for(int mode = 0; mode < 5; ++mode) {
+    for(int mode = 0; mode < 6; ++mode) {
         const char *mbuf = g_msgbuf;
         if(mode == 4) { size_t k = 1 + (vp::fnv(cid) % 3); memcpy(ualigned + k, g_msgbuf, sizeof g_msgbuf); mbuf = ualigned + k; }   // the bytewise API allows any address
         rec.rec.clear(); rec.msg_base = mbuf;
         Cap d; d.obj = &root.obj_tag; d.matches = 0; d.port = nullptr;
         if(mode >= 1) { memset(g_loc, 0, sizeof g_loc); d.loc = g_loc; d.loc_size = sizeof g_loc; }
+        if(mode == 5) { if(full.size() + 2 > sizeof g_loc) continue; d.loc_size = full.size() + 1; g_loc[full.size() + 1] = 0x7e; }     // room for the address and its terminator, nothing more
         // mode 3: the caller hands over the prefix "/" as a C string; what lies behind its terminator is the caller's business
         if(mode == 3) { memset(g_loc, 'Z', sizeof g_loc - 1); g_loc[0] = '/'; g_loc[1] = 0; }
         if(mode == 2 || mode == 3) root.built->dispatch(mbuf + 1, d, false); else root.built->dispatch(mbuf, d, true);
@@ -140,9 +142,10 @@ static void run_message(Node &root, const std::string &tid, const std::string &a
             if(mode >= 1 && r.loc != e->loc) vp::violation("location-not-full-address|" + shape, cid, "callback saw loc '" + r.loc + "', address is '" + e->loc + "'");
         }
         // d.port == &port for leaves: compare the name pointer through the recorded Port*
-        if(mode <= 1 || mode == 4) {
+        if(mode == 5 && (unsigned char)g_loc[full.size() + 1] != 0x7e) vp::violation("write-behind-location-buffer|" + shape, cid, "the byte behind a location buffer of " + std::to_string(full.size() + 1) + " bytes was written");
+        if(mode <= 1 || mode >= 4) {
             int leaf_calls = (int)got_leaf.size();
-            if((mode == 1 || mode == 4) && d.matches != leaf_calls + defaults) vp::violation("match-count|" + shape, cid, "d.matches=" + std::to_string(d.matches) + ", leaf callbacks invoked=" + std::to_string(leaf_calls) + ", default handler=" + std::to_string(defaults));
+            if((mode == 1 || mode >= 4) && d.matches != leaf_calls + defaults) vp::violation("match-count|" + shape, cid, "d.matches=" + std::to_string(d.matches) + ", leaf callbacks invoked=" + std::to_string(leaf_calls) + ", default handler=" + std::to_string(defaults));
         }
 #undef shape
         g_out[mode][got_leaf.empty() ? (defaults ? 1 : 0) : (got_leaf.size() == 1 ? 2 : 3)][g_cur_linear]++;
@@ -198,8 +201,8 @@ int main(int argc, char **argv)
     const int U = T ? 16 : 11;
     vp::bound("name_universe", [&] { std::string s; for(int i = 0; i < U; ++i) s += std::string(UNIVERSE[i]) + " "; return s; }());
     vp::bound("tables_level1", "every non-empty subset of the universe (" + std::to_string((1u << U) - 1) + ") x variants {plain, argument specs, one #3 leaf, one #12 sub-tree/leaf} x {no default handler, default handler}" + (T ? "; for subsets of more than 12 names only the plain and spec variants" : ""));
-    vp::bound("messages", "per table: every leaf address (indices 0,N-1,N,N+1,00,01,none) and every single-character insertion/removal/substitution over 'abc/0x' x type strings {'' i f ii T s} (tables without specs: '' and i)");
-    vp::bound("dispatch_modes", "without location buffer / with location buffer / with location buffer and base_dispatch=false / the same with garbage behind the prefix's terminator / with location buffer and the message at an address that is not a multiple of 4");
+    vp::bound("messages", "per table: every leaf address (indices 0,N-1,N,N+1,00,01,none) and every single-character insertion/removal/substitution over 'abc/0x+- ' x type strings {'' i f ii T s} (tables without specs: '' and i)");
+    vp::bound("dispatch_modes", "without location buffer / with location buffer / with location buffer and base_dispatch=false / the same with garbage behind the prefix's terminator / with location buffer and the message at an address that is not a multiple of 4 / with a location buffer of exactly address length + 1");
 
     // replay: tid encodes how to rebuild the table
     uint64_t top = 0;
@@ -251,6 +254,17 @@ int main(int argc, char **argv)
             if(vp::replaying() && vp::ctx().replay.compare(0, tid.size() + 1, tid + "|") != 0) continue;
             run_table(make_table(names, 0, dh), tid, false);
         }
+        {
+            static const char *MX[] = {"vol1", "vol2", "vol3", "vol4", "pan1", "l", "r", "on", "fm", "x"};
+            for(uint32_t m = 0; m < 1024; ++m, ++top) {
+                if(__builtin_popcount(m) < 6 || !vp::mine(top)) continue;
+                std::vector<std::string> names; for(int i = 0; i < 10; ++i) if(m & (1u << i)) names.push_back(MX[i]);
+                std::string tid = "MX|m" + std::to_string(m);
+                if(vp::replaying() && vp::ctx().replay.compare(0, tid.size() + 1, tid + "|") != 0) continue;
+                run_table(make_table(names, 0, false), tid, false);
+            }
+        }
+        vp::bound("tables_mixer", "all subsets of 6..10 of {vol1 vol2 vol3 vol4 pan1 l r on fm x}");
         vp::bound("tables_special_names", "subsets of {a pan b/c/ osc/mod/ ab/ b} with a multi-component sub-tree; {volume, pan, vol/} next to one name of 100..3000 characters (leaf or sub-tree)");
     }
     // ---- nesting: 2 and 3 levels
@@ -279,7 +293,7 @@ int main(int argc, char **argv)
         vp::bound("tables_nested", "parents: subsets of {a s/ ab/ b} with a sub-tree; children: all 31 subsets of {x xy x/ y:i x#2} (with and without default handler); 3 grandchild shapes under x/");
     }
     vp::outcome("tables built", g_tables);
-    { static const char *MO[5] = {"no-location-buffer", "location-buffer", "location-buffer,base_dispatch=false", "loc,base_dispatch=false,garbage-behind-prefix", "loc,unaligned-message"}; static const char *WH[4] = {"nothing invoked", "default handler", "one leaf", "several leaves"};
-      for(int m = 0; m < 5; ++m) for(int w = 0; w < 4; ++w) for(int l = 0; l < 2; ++l) if(g_out[m][w][l]) vp::outcome(std::string(MO[m]) + ":" + (l ? "table-with-#" : "table-without-#") + ":" + WH[w], g_out[m][w][l]); }
+    { static const char *MO[6] = {"no-location-buffer", "location-buffer", "location-buffer,base_dispatch=false", "loc,base_dispatch=false,garbage-behind-prefix", "loc,unaligned-message", "loc,exact-size"}; static const char *WH[4] = {"nothing invoked", "default handler", "one leaf", "several leaves"};
+      for(int m = 0; m < 6; ++m) for(int w = 0; w < 4; ++w) for(int l = 0; l < 2; ++l) if(g_out[m][w][l]) vp::outcome(std::string(MO[m]) + ":" + (l ? "table-with-#" : "table-without-#") + ":" + WH[w], g_out[m][w][l]); }
     return vp::finish();
 }
